@@ -902,7 +902,7 @@ def couple_impl(a):
                 fail('attach-alters-coupling-list:%s:%s' % (how, cls[k]),
                      'addCouplingModel(%s #%d) with %r attached: the list is now %r' % (cls[k], k, [type(x).__name__ for x in before], [type(x).__name__ for x in real]),
                      [type(x).__name__ for x in real], [type(x).__name__ for x in before] + [cls[k]])
-                ok = False; break
+                # go on: the histories of the models that should be attached are checked after every host step below
             if [state(j) for j in range(nm)] != snap:
                 fail('attach-alters-model-history', 'addCouplingModel(%s #%d) changed the history of a model' % (cls[k], k), None, 'unchanged'); ok = False; break
         if not ok:
